@@ -620,7 +620,9 @@ func DriverMain(id, tier string, seed int64, exe, raceExe, replay string) int {
 			fmt.Printf("COVERAGE-FLOOR-MISSED distinct=%d floor=%d\n", nDistinct, chk.MinDistinct)
 			exit = 2
 		}
-		if len(merged.Inconclusive)*50 > total && len(merged.Inconclusive) > 0 {
+		// inconclusive cases are reported (stdout + evidence) and never counted as held; the run as a whole is
+		// only refused when a quarter of it was inconclusive (the machine is not doing its job)
+		if len(merged.Inconclusive)*4 > total && len(merged.Inconclusive) > 0 {
 			fmt.Printf("TOO-MANY-INCONCLUSIVE %d of %d cases\n", len(merged.Inconclusive), total)
 			exit = 2
 		}
